@@ -117,6 +117,31 @@ class SymRegs(dict):
         return dict.__contains__(self, k)
 
 
+def _seq_getitem(base, self, i):
+    """a SymInt index into a module-level table of integers: fork on being in range (negative indices count
+    from the end, as in Python), the value is the if-then-else chain over the entries"""
+    if isinstance(i, SymInt):
+        n = base.__len__(self)
+        if n == 0 or not core.And(i >= -n, i < n):
+            raise IndexError('index out of range')
+        vals = [base.__getitem__(self, k) for k in range(n)]
+        r = vals[-1]
+        for k in range(n - 2, -1, -1):
+            r = core.ite(core.Or(i == k, i == k - n), vals[k], r)
+        return r
+    return base.__getitem__(self, i)
+
+
+class SymTuple(tuple):
+    def __getitem__(self, i):
+        return _seq_getitem(tuple, self, i)
+
+
+class SymList(list):
+    def __getitem__(self, i):
+        return _seq_getitem(list, self, i)
+
+
 _STD = {'b': (1, True), 'B': (1, False), 'h': (2, True), 'H': (2, False),
         'i': (4, True), 'I': (4, False), 'l': (4, True), 'L': (4, False),
         'q': (8, True), 'Q': (8, False)}
@@ -341,6 +366,12 @@ def install(mod, vfs=None):
             setattr(mod, name, StructShim.unpack)
         elif val is _struct.Struct:
             setattr(mod, name, _no_struct_class)
+        elif builtins.type(val) is types.FunctionType and val.__defaults__ and any(builtins.type(d) is builtins.bytearray for d in val.__defaults__):
+            # a byte buffer kept in a default argument lives as long as the module: it must be able to hold symbolic chunks
+            val.__defaults__ = tuple(_bytearray(bytes(d)) if builtins.type(d) is builtins.bytearray else d for d in val.__defaults__)
+        elif builtins.type(val) in (tuple, list) and len(val) >= 2 and all(builtins.type(e) is builtins.int for e in val):
+            # module-level tables of integers may be indexed with a symbolic operand
+            setattr(mod, name, (SymTuple if builtins.type(val) is tuple else SymList)(val))
     if vfs is not None:
         vfs.install(mod)
     return mod
